@@ -457,6 +457,10 @@ type ecase struct {
 	// door "declared": data objects declared in the model with an
 	// olive:dataObjectBody (JSON object text; "" = declared without a body)
 	Bodies []string `json:"bodies,omitempty"`
+	// SharedOpts: both instances are created from ONE []bpmn.Option value
+	// (the way a process set creates its processes, or a caller that keeps its
+	// options around): they start with equal variables but must not share them
+	SharedOpts bool `json:"sharedOpts,omitempty"`
 }
 
 func procXML(c ecase) (string, string) {
@@ -514,7 +518,12 @@ func runEngine(c ecase) (sym, det, inconcl string) {
 	if c.Door == "variables" {
 		vars["v"] = v
 	}
-	if p := guard(func() { in, err = drive.New(x, drive.Options{Vars: vars}) }); p != "" {
+	shared := []bpmn.Option{bpmn.WithVariables(vars)}
+	o1 := drive.Options{Vars: vars}
+	if c.SharedOpts {
+		o1 = drive.Options{Extra: shared}
+	}
+	if p := guard(func() { in, err = drive.New(x, o1) }); p != "" {
 		return "panic", fmt.Sprintf("creating the instance with variable %s panicked: %s", describe(v), p), ""
 	}
 	if err != nil {
@@ -523,8 +532,12 @@ func runEngine(c ecase) (sym, det, inconcl string) {
 	defer in.Close()
 	// a second instance, alive at the same time, with its own variables
 	ov := c.Other.build()
+	o2 := drive.Options{Vars: map[string]any{"other": ov, "v": "instance-2"}, Tracker: in.Tr}
+	if c.SharedOpts {
+		o2 = drive.Options{Extra: shared, Tracker: in.Tr}
+	}
 	if p := guard(func() {
-		in2, err = drive.New(x, drive.Options{Vars: map[string]any{"other": ov, "v": "instance-2"}, Tracker: in.Tr})
+		in2, err = drive.New(x, o2)
 	}); p != "" {
 		return "panic", fmt.Sprintf("creating the second instance panicked: %s", p), ""
 	}
@@ -653,6 +666,21 @@ func runEngine(c ecase) (sym, det, inconcl string) {
 	if _, leak := v2["r"]; leak {
 		return "isolation", "result variable of instance 1 is visible in instance 2", ""
 	}
+	if c.SharedOpts {
+		// a write in instance 2 stays in instance 2
+		in2.P.Locator().SetVariable("only2", int64(2))
+		if _, leak := in.P.Locator().CloneVariables()["only2"]; leak {
+			return "isolation", "a variable set in instance 2 is visible in instance 1 (both were created from the same option values)", ""
+		}
+		if items := in2.P.Locator().CloneItems(data.LocatorObject); c.Door == "objects" {
+			if it, ok := items["out"]; ok && it != nil && it.Value() != nil {
+				if m, isMap := it.Value().(map[string]any); !isMap || len(m) > 0 {
+					return "isolation", fmt.Sprintf("data object written in instance 1 is visible in instance 2: %v", it.Value()), ""
+				}
+			}
+		}
+		return "", "", ""
+	}
 	if it, ok := v2["v"]; !ok || it.Value() != "instance-2" {
 		return "isolation", fmt.Sprintf("instance 2's own variable v reads %v", it), ""
 	}
@@ -677,7 +705,7 @@ func TestC16Engine(t *testing.T) {
 	refs := []string{"$base.present.leaf", "$base.absent", "$base.present.absent.deep", "$missing.x", "$base", "base.present", "$", "", "$.x", "$base.n", "$base..", "$v.a"}
 	rapid.Check(t, func(rt *rapid.T) {
 		c := ecase{V: genValue(rt, 3, false), Door: rapid.SampledFrom([]string{"variables", "results", "objects", "property", "declared"}).Draw(rt, "door"),
-			Other: genValue(rt, 2, false)}
+			Other: genValue(rt, 2, false), SharedOpts: rapid.IntRange(0, 3).Draw(rt, "sharedOpts") == 0}
 		if c.Door == "declared" {
 			n := rapid.IntRange(1, 3).Draw(rt, "nDeclared")
 			for i := 0; i < n; i++ {
